@@ -121,6 +121,12 @@ fn value_json(v: &Value) -> J {
     }
 }
 
+/// Name of the cargo profile this binary was built with (stamped into case records):
+/// "checked" when debug assertions (and, in that profile, overflow checks) are compiled in, else "release".
+fn profile_name() -> &'static str {
+    if cfg!(debug_assertions) { "checked" } else { "release" }
+}
+
 fn emit(trace: &mut Trace, ev: J) {
     trace.emit(ev);
     trace.flush();
@@ -296,8 +302,13 @@ fn find(hay: &[u8], needle: &[u8]) -> Option<usize> {
 }
 
 /// Mutate the file bytes; returns a description.
-fn corrupt(rng: &mut Rng, fmt: &str, b: &mut Vec<u8>) -> String {
-    let kind = rng.below(10);
+fn corrupt(rng: &mut Rng, fmt: &str, b: &mut Vec<u8>, allow_structured: bool) -> String {
+    // At most one structured (header-number / length-field) edit is applied per pristine copy, so that the
+    // class logged with it describes the file; further edits on that copy are byte-level.
+    let kind = {
+        let k = rng.below(10);
+        if !allow_structured && (5..=7).contains(&k) { k % 5 } else { k }
+    };
     let n = b.len();
     match kind {
         0 if n > 0 => {
@@ -437,7 +448,7 @@ fn run_case(trace: &mut Trace, idx: usize, ncorrupt: usize) {
     let fmt = FORMATS[idx % 3];
     let via_file = (idx / 3) % 5 == 4;
     let path = format!("c34-{}.{}", std::process::id(), fmt);
-    emit(trace, json!({"ev": "scase", "idx": idx, "fmt": fmt, "via_file": via_file}));
+    emit(trace, json!({"ev": "scase", "idx": idx, "fmt": fmt, "via_file": via_file, "profile": profile_name()}));
     // entries: dtype and shape sweep systematically with idx, the rest is seeded
     let nent = if fmt == "npy" { 1 } else { 1 + rng.below(3) };
     let mut entries: Vec<(String, T)> = Vec::new();
@@ -470,12 +481,27 @@ fn run_case(trace: &mut Trace, idx: usize, ncorrupt: usize) {
             }
         }
         let pristine = bytes.clone();
+        let mut structured = false;
         for c in 0..ncorrupt {
             if c % 3 == 0 {
                 bytes = pristine.clone(); // otherwise corruptions accumulate
+                structured = false;
             }
-            let what = corrupt(&mut rng, fmt, &mut bytes);
-            emit(trace, json!({"ev": "scorrupt", "what": what, "nbytes": bytes.len()}));
+            let what = corrupt(&mut rng, fmt, &mut bytes, !structured);
+            // class of the edit (a description of what the generator did, for signatures): structured
+            // header-number edits are named, everything else is "bytes"
+            let class = match what.as_str() {
+                "subst0" | "subst10" => "huge_dim",
+                "subst1" => "huge_dims",
+                "subst2" => "zero_dim_times_huge_dims",
+                "subst11" => "negative_dim",
+                "subst12" | "subst13" => "data_offsets_edit",
+                w if w.starts_with("subst") => "header_text_edit",
+                w if w.starts_with("lenfield") || w.starts_with("npy-v") => "length_field_edit",
+                _ => "bytes",
+            };
+            structured = structured || class != "bytes";
+            emit(trace, json!({"ev": "scorrupt", "what": what, "class": class, "fresh": c % 3 == 0, "nbytes": bytes.len()}));
             emit(trace, json!({"ev": "sop", "op": "read"}));
             emit_read(trace, "all", "", do_read(fmt, &bytes, None, via_file, &path));
             if fmt != "npy" && rng.chance(1, 2) {
@@ -525,6 +551,202 @@ pub fn main_serialize() {
     for i in 0..cases {
         if i >= skip && i - skip < limit {
             run_case(&mut trace, first + i, ncorrupt);
+        }
+    }
+    trace.flush();
+}
+
+// ------------------------------------------------------------------------
+// Crafted headers: syntactically valid files whose numbers (shape dims, and
+// for safetensors the header length and data offsets) sit at the boundaries of
+// the readers' arithmetic.  The descriptors are generated by TLC
+// (MC_SerializeHdr.tla); nothing is judged here.
+
+fn word(v: &J) -> u128 {
+    v.as_array().unwrap().iter().enumerate().fold(0u128, |acc, (i, l)| acc + ((l.as_u64().unwrap() as u128) << (15 * i)))
+}
+
+fn limbs128(mut x: u128) -> J {
+    let mut v = Vec::new();
+    while x != 0 {
+        v.push(json!((x & 0x7fff) as u64));
+        x >>= 15;
+    }
+    J::Array(v)
+}
+
+fn crc32(data: &[u8]) -> u32 {
+    let mut crc = 0xffff_ffffu32;
+    for &b in data {
+        crc ^= b as u32;
+        for _ in 0..8 {
+            crc = if crc & 1 != 0 { (crc >> 1) ^ 0xedb8_8320 } else { crc >> 1 };
+        }
+    }
+    !crc
+}
+
+/// A zip archive with one stored (uncompressed) member.
+fn zip_stored(name: &str, data: &[u8]) -> Vec<u8> {
+    let crc = crc32(data);
+    let n = name.as_bytes();
+    let mut out = Vec::new();
+    let local = |out: &mut Vec<u8>, central: bool, offset: u32| {
+        out.extend_from_slice(if central { b"PK\x01\x02" } else { b"PK\x03\x04" });
+        if central {
+            out.extend_from_slice(&20u16.to_le_bytes()); // version made by
+        }
+        out.extend_from_slice(&20u16.to_le_bytes()); // version needed
+        out.extend_from_slice(&0u16.to_le_bytes()); // flags
+        out.extend_from_slice(&0u16.to_le_bytes()); // method: stored
+        out.extend_from_slice(&0u16.to_le_bytes()); // time
+        out.extend_from_slice(&0x21u16.to_le_bytes()); // date
+        out.extend_from_slice(&crc.to_le_bytes());
+        out.extend_from_slice(&(data.len() as u32).to_le_bytes());
+        out.extend_from_slice(&(data.len() as u32).to_le_bytes());
+        out.extend_from_slice(&(n.len() as u16).to_le_bytes());
+        out.extend_from_slice(&0u16.to_le_bytes()); // extra len
+        if central {
+            out.extend_from_slice(&0u16.to_le_bytes()); // comment len
+            out.extend_from_slice(&0u16.to_le_bytes()); // disk
+            out.extend_from_slice(&0u16.to_le_bytes()); // internal attrs
+            out.extend_from_slice(&0u32.to_le_bytes()); // external attrs
+            out.extend_from_slice(&offset.to_le_bytes());
+        }
+        out.extend_from_slice(n);
+    };
+    local(&mut out, false, 0);
+    out.extend_from_slice(data);
+    let cd_start = out.len() as u32;
+    local(&mut out, true, 0);
+    let cd_len = out.len() as u32 - cd_start;
+    out.extend_from_slice(b"PK\x05\x06");
+    out.extend_from_slice(&[0, 0, 0, 0]);
+    out.extend_from_slice(&1u16.to_le_bytes());
+    out.extend_from_slice(&1u16.to_le_bytes());
+    out.extend_from_slice(&cd_len.to_le_bytes());
+    out.extend_from_slice(&cd_start.to_le_bytes());
+    out.extend_from_slice(&0u16.to_le_bytes());
+    out
+}
+
+fn npy_file(descr: &str, dims: &[u128], payload: &[u8]) -> Vec<u8> {
+    let mut d = dims.iter().map(|x| x.to_string()).collect::<Vec<_>>().join(", ");
+    if dims.len() == 1 {
+        d.push(',');
+    }
+    let mut dict = format!("{{'descr': '{descr}', 'fortran_order': False, 'shape': ({d}), }}");
+    let unpadded = 10 + dict.len() + 1;
+    let pad = unpadded.next_multiple_of(64) - unpadded;
+    dict.extend(std::iter::repeat_n(' ', pad));
+    dict.push('\n');
+    let mut out = Vec::new();
+    out.extend_from_slice(b"\x93NUMPY\x01\x00");
+    out.extend_from_slice(&(dict.len() as u16).to_le_bytes());
+    out.extend_from_slice(dict.as_bytes());
+    out.extend_from_slice(payload);
+    out
+}
+
+/// (npy descr, safetensors dtype, harness dtype name) for an item size
+fn dtype_for(isz: u64, idx: usize) -> (&'static str, &'static str, &'static str) {
+    match (isz, idx % 2) {
+        (1, 0) => ("|u1", "U8", "u8"),
+        (1, _) => ("|i1", "I8", "i8"),
+        (2, 0) => ("<i2", "I16", "i16"),
+        (2, _) => ("<u2", "U16", "u16"),
+        (4, 0) => ("<f4", "F32", "f32"),
+        (4, _) => ("<i4", "I32", "i32"),
+        (8, 0) => ("<f8", "F64", "f64"),
+        _ => ("<u8", "U64", "u64"),
+    }
+}
+
+fn run_hdr_case(trace: &mut Trace, idx: usize, v: &J) {
+    let fmt = v["fmt"].as_str().unwrap();
+    let isz = v["isz"].as_u64().unwrap();
+    let dims: Vec<u128> = v["dims"].as_array().unwrap().iter().map(word).collect();
+    let avail = word(&v["avail"]) as usize;
+    let (descr, st_dtype, dtype) = dtype_for(isz, idx / 2);
+    let how = if fmt != "npy" && idx % 2 == 1 { "one" } else { "all" };
+    let payload: Vec<u8> = (0..avail).map(|i| (i as u8).wrapping_mul(37).wrapping_add(1)).collect();
+    let (begin, end) = (word(&v["begin"]), word(&v["end"]));
+    let (bytes, hlen, flen): (Vec<u8>, u128, u128) = match fmt {
+        "npy" => (npy_file(descr, &dims, &payload), 0, 0),
+        "npz" => (zip_stored("t.npy", &npy_file(descr, &dims, &payload)), 0, 0),
+        _ => {
+            let shape = dims.iter().map(|x| x.to_string()).collect::<Vec<_>>().join(",");
+            let js = format!("{{\"t\":{{\"dtype\":\"{st_dtype}\",\"shape\":[{shape}],\"data_offsets\":[{begin},{end}]}}}}");
+            let actual = js.len() as u128;
+            let hl = match v["hlen"]["kind"].as_str().unwrap() {
+                "actual" => actual,
+                "actual-1" => actual - 1,
+                "actual+1" => actual + 1,
+                _ => word(&v["hlen"]["v"]),
+            };
+            let mut out = Vec::new();
+            out.extend_from_slice(&(hl as u64).to_le_bytes());
+            out.extend_from_slice(js.as_bytes());
+            out.extend_from_slice(&payload);
+            let fl = out.len() as u128;
+            (out, hl, fl)
+        }
+    };
+    emit(trace, json!({"ev": "hcase", "idx": idx, "profile": profile_name(), "fmt": fmt, "how": how, "dtype": dtype,
+                       "isz": isz, "dims": v["dims"], "avail": v["avail"], "hlen": limbs128(hlen), "flen": limbs128(flen),
+                       "begin": v["begin"], "end": v["end"], "nbytes": bytes.len()}));
+    let r = do_read(fmt, &bytes, if how == "one" { Some("t") } else { None }, false, "");
+    let (outcome, msg, val) = match r {
+        Err(p) => ("panic", short(&p), None),
+        Ok(Err(e)) => ("error", short(&e), None),
+        Ok(Ok(ReadOut::One(v))) => ("value", String::new(), Some(v)),
+        Ok(Ok(ReadOut::Map(mut m))) => match m.remove("t") {
+            Some(v) if m.is_empty() => ("value", String::new(), Some(v)),
+            _ => ("value", "unexpected entries".to_string(), None),
+        },
+    };
+    let (rdtype, rshape, rn) = match &val {
+        Some(v) => {
+            let j = value_json(v);
+            let shape: Vec<J> = j["shape"].as_array().unwrap().iter().map(|d| limbs(d.as_u64().unwrap())).collect();
+            (j["dtype"].as_str().unwrap().to_string(), shape, j["elems"].as_array().unwrap().len())
+        }
+        None => (String::new(), vec![], 0),
+    };
+    emit(trace, json!({"ev": "hret", "outcome": outcome, "msg": msg, "dtype": rdtype, "shape": rshape,
+                       "nelem": limbs(rn as u64), "has_value": val.is_some()}));
+}
+
+pub fn main_serialize_hdr() {
+    quiet_panics();
+    let hdrs = arg("--headers").expect("--headers");
+    if arg("--worker").is_none() {
+        let out = arg("--out").expect("--out");
+        let mut trace = Trace::create(&out);
+        let args: Vec<String> = vec!["serialize-hdr".into(), "--headers".into(), hdrs];
+        let lost = |why: &str| json!({"ev": "hret", "outcome": why, "msg": "", "dtype": "", "shape": [],
+                                      "nelem": [], "has_value": false});
+        let spec = crate::child::WorkerSpec {
+            args,
+            case_ev: "hcase",
+            ret_ev: "hret",
+            lost: &lost,
+            timeout_ms: arg_usize("--timeout-ms", 5000) as u64,
+            retry_timeout_ms: arg_usize("--retry-timeout-ms", 15000) as u64,
+        };
+        let n = crate::child::run_cases(&spec, &mut trace);
+        trace.flush();
+        println!("{{\"cases\": {n}}}");
+        return;
+    }
+    let skip = arg_usize("--skip", 0);
+    let limit = arg_usize("--limit", usize::MAX);
+    let mut trace = Trace::create("-");
+    for (i, v) in vcommon::read_json_lines(&hdrs).iter().enumerate() {
+        if i >= skip && i - skip < limit {
+            // a replayed descriptor carries the index that selected dtype and read kind
+            let idx = v.get("idx").and_then(|x| x.as_u64()).map(|x| x as usize).unwrap_or(i);
+            run_hdr_case(&mut trace, idx, v);
         }
     }
     trace.flush();
